@@ -24,7 +24,8 @@ TARGETS = {
 def prepare():
     dst = os.path.join(snapshot.SCRATCH, 'kani-src')
     os.makedirs(dst, exist_ok=True)
-    subprocess.run(['rsync', '-a', '--delete', '--exclude', 'target', '--exclude', '.git', snapshot.REPO + '/', dst + '/'], check=True)
+    subprocess.run(['rsync', '-rlpgoD', '--checksum', '--delete', '--exclude', 'target', '--exclude', '.git', snapshot.REPO + '/', dst + '/'], check=True)
+    snapshot.force_rebuild_if_changed(dst)
     for hf, tgt in TARGETS.items():
         p = os.path.join(dst, tgt)
         if not os.path.exists(p):
